@@ -52,6 +52,50 @@ def idiom_max_plus_one(fn):
     return None
 
 
+def idiom_path_plus_one(fn):
+    """Decided per returning path: the value handed out is `X + 1`, X being the population maximum on that path, or a cached
+    maximum that the same path advances to the value handed out (`m = cached if turbo else tree.max; n = m + 1; if turbo: cached = n`)."""
+    if not isinstance(fn, (ast.FunctionDef, ast.AsyncFunctionDef)):
+        return None
+    from sa import paths as P_
+    from sa.desugar import desugar as _ds
+
+    fd = _ds(fn)
+    n_paths = 0
+    for pth in P_.enum_paths(fd.body):
+        if pth.end != "return" or pth.end_node.value is None or not P_.feasible(pth):
+            continue
+        env = {}
+        stores = {}
+        for st in pth.stmts():
+            if isinstance(st, ast.Assign) and len(st.targets) == 1:
+                t = st.targets[0]
+                if isinstance(t, ast.Name):
+                    env[t.id] = st.value
+                elif dotted(t):
+                    stores[dotted(t)] = st.value
+
+        def res(e, k=0):
+            while isinstance(e, ast.Name) and e.id in env and k < 8:
+                e, k = env[e.id], k + 1
+            return e
+
+        v = res(pth.end_node.value)
+        if not (isinstance(v, ast.BinOp) and isinstance(v.op, ast.Add) and isinstance(v.right, ast.Constant) and v.right.value == 1):
+            return None
+        x = res(v.left)
+        # (`<tree>.max_shape_id` is itself an allocator of this table, decided on its own to be the population maximum)
+        if _is_max(x) or (dotted(x) or "").split(".")[-1] == "max_shape_id":
+            n_paths += 1
+            continue
+        fld = dotted(x)
+        if fld and fld in stores and ast.dump(res(stores[fld])) == ast.dump(v):
+            n_paths += 1   # the cached maximum is advanced to the value handed out
+            continue
+        return None
+    return "max(P)+1 / cached maximum advanced (decided per path)" if n_paths else None
+
+
 def idiom_first_gap(fn):
     for n in ast.walk(fn):
         if isinstance(n, ast.For) and isinstance(n.iter, ast.Call) and dotted(n.iter.func) in ("range", "itertools.count", "count") \
@@ -393,7 +437,7 @@ def _fresh_return(r, fn, par, depth=0):
     return False
 
 
-IDIOMS = [idiom_max_plus_one, idiom_first_gap, idiom_while_not_in, idiom_while_in, idiom_sorted_gap, idiom_next_unused_enumerate,
+IDIOMS = [idiom_max_plus_one, idiom_path_plus_one, idiom_first_gap, idiom_while_not_in, idiom_while_in, idiom_sorted_gap, idiom_next_unused_enumerate,
           idiom_len_plus_one, idiom_counter]
 
 # allocator -> (module, qualname, population patterns that must all appear in the source, forbidden patterns)
